@@ -194,6 +194,20 @@ CustomCases == { Case("custom", [bg EXCEPT !.custom = cu], self, "ed25519", "ed2
 CustomAkiCases == { Case("custom", [Base EXCEPT !.custom = <<[oid |-> "2.5.29.35", crit |-> cr, content |-> "3000"]>>, !.isCa = ca], self, "ed25519", "ed25519", Kid("sha256"), "keypair") :
                       cr \in Bool, ca \in {NoCa, CaU}, self \in Bool }
 
+(* an extension of the caller's own under the OID of an extension that a typed field of the same parameters produces too *)
+(* (both are written), and under such an OID alone                                                                          *)
+CuKu  == [oid |-> "2.5.29.15", crit |-> TRUE,  content |-> "03020780"]
+CuSan == [oid |-> "2.5.29.17", crit |-> FALSE, content |-> "30088206612e74657374"]
+CuEku == [oid |-> "2.5.29.37", crit |-> FALSE, content |-> "300a06082b06010505070301"]
+CuBc  == [oid |-> "2.5.29.19", crit |-> TRUE,  content |-> "30030101ff"]
+CustomDupCases ==
+  { Case("custom-dup", [Base EXCEPT !.custom = <<cu>>, !.ku = IF typed /\ cu = CuKu THEN <<5, 6>> ELSE <<>>,
+                                    !.sans = IF typed /\ cu = CuSan THEN SanSome ELSE <<>>,
+                                    !.eku = IF typed /\ cu = CuEku THEN <<"1.3.6.1.5.5.7.3.2">> ELSE <<>>,
+                                    !.isCa = IF typed /\ cu = CuBc THEN CaC(1) ELSE NoCa, !.aki = aki],
+         self, "ed25519", "ed25519", Kid("sha256"), "keypair") :
+      cu \in {CuKu, CuSan, CuEku, CuBc}, typed \in Bool, aki \in Bool, self \in Bool }
+
 (* what kind of certificate the issuer object is does not change what is issued under it: issuers that are not CAs, CAs with *)
 (* a path length, issuers with odd key usages, each with and without a requested authority key identifier                      *)
 IssuerKindCases == { [Case("issuer-kind", [Base EXCEPT !.aki = aki, !.isCa = ca, !.sans = san], FALSE, "ed25519", "ed25519", ik, "keypair")
@@ -243,7 +257,7 @@ SameNameCases == { Case("same-name", [Base EXCEPT !.dn = IssuerDn, !.isCa = ca, 
 Kid200 == [i \in 1..200 |-> (i * 7) % 256]
 VeryLongKidCases == { Case("longkid", [Base EXCEPT !.isCa = CaU, !.aki = TRUE, !.kid = KidPre(SubSeq(Kid200, 1, n))], self, "ed25519", "ed25519", KidPre(SubSeq(Kid200, 1, m)), "keypair") :
                         n \in {125, 126, 127, 128, 200}, m \in {125, 126, 127, 128, 129, 200}, self \in Bool }
-Cases == SoleSourceCases \cup SameNameCases \cup VeryLongKidCases \cup CsrPathCases \cup BadStringCases \cup PathLenKuCases \cup OutsideIssuerCases \cup LongKidCases \cup AutoSerialCases \cup PresenceCases \cup KuCases \cup PathLenCases \cup PrefixCases \cup SanCases \cup NcCases \cup DnCases
+Cases == CustomDupCases \cup SoleSourceCases \cup SameNameCases \cup VeryLongKidCases \cup CsrPathCases \cup BadStringCases \cup PathLenKuCases \cup OutsideIssuerCases \cup LongKidCases \cup AutoSerialCases \cup PresenceCases \cup KuCases \cup PathLenCases \cup PrefixCases \cup SanCases \cup NcCases \cup DnCases
          \cup KidCases \cup SerialCases \cup EkuCases \cup CustomCases \cup CustomAkiCases \cup IssuerKindCases \cup AlgCases
 
 (* ---- abstract keys for the model (the harness substitutes real keys and real digests) ---- *)
